@@ -143,13 +143,23 @@ def deep_merge_multi_update(dct, merge_dct):
                 dct[k] = {
                     '_multi_update': [
                         dct[k], merge_dct[k]]}
-        elif type(merge_dct[k]) is dict:  # pylint: disable=unidiomatic-typecheck
+        elif isinstance(merge_dct[k], dict):
             # copy the dictionaries (not their leaves): later merges must
             # not write into the caller's update
-            dct[k] = deep_merge_multi_update({}, merge_dct[k])
+            dct[k] = _copy_dicts(merge_dct[k])
         else:
             dct[k] = merge_dct[k]
     return dct
+
+
+def _copy_dicts(dct):
+    """Copy a dictionary and the dictionaries inside it (keeping their
+    types), sharing every other value."""
+    new = copy.copy(dct)
+    for k, v in dct.items():
+        if isinstance(v, dict):
+            new[k] = _copy_dicts(v)
+    return new
 
 
 def remove_multi_update(d):
